@@ -7,10 +7,10 @@
    Dec/ByteModels.v (pad / unpad).  Tables: Gen/PKCS7Tables.v, Gen/RC2Tables.v (from the source). *)
 From Coq Require Import List NArith ZArith Bool String Lia.
 From GmsmVerif Require Import Lib.Outcome Dec.Access Dec.DecSpec Dec.ByteModels Dec.ByteProofs
-  Gen.PKCS7Tables P7.P7Model P7.P7Proofs P12.MacModel P12.MacProofs
+  Gen.PKCS7Tables P7.P7Model P7.P7Proofs P7.P7SignModel P7.P7SignProofs P12.MacModel P12.MacProofs
   P12.RC2Model P12.RC2Proofs P12.PbkdfSpec P12.PbkdfModel P12.PbkdfProofs P12.BmpModel P12.BmpProofs
-  P12.ContainerModel P12.ContainerProofs P12.ContainerInst.
-From GmsmVerif Require EC.SM2Curve SM2.SM2Model P7.P7SM2Model P7.P7SM2Proofs.
+  P12.ContainerModel P12.ContainerProofs P12.ContainerInst P12.ContainerToy P12.ContainerToyProofs.
+From GmsmVerif Require EC.SM2Curve SM2.SM2Model P7.P7SM2Model P7.P7SM2Proofs Props.C02.
 Import ListNotations.
 Local Open Scope nat_scope.
 Notation length := List.length (only parsing).
@@ -129,18 +129,21 @@ Section C17_Envelope_SM2.
 End C17_Envelope_SM2.
 Print Assumptions C17_envelope_roundtrip_sm2.
 
-(* non-vacuity: two recipients with the SM2 keys d = 1 and d = 2, real SM2 model, toy content cipher; recipient 2
-   gets the content back, recipient 2's certificate with key 1 does not *)
+(* non-vacuity of the SM2 key transport: sm2_wrap returns a wrapped key that the SM2 decryption opens (key d = 1,
+   fuel 2, ordering C1C3C2).  The SM2 computation behind it is C02's evaluated example, cited by name; nothing of the
+   curve arithmetic is evaluated here. *)
 Example C17_envelope_sm2_example :
-  let rho := repeat 0%N 39 ++ [1%N] in
-  let wrap := fun (c : Z) (k r : list N) => P7SM2Model.sm2_wrap 2 0 c k r in
-  let unwrap := fun (d : Z) (e : list N) => P7SM2Model.sm2_unwrap 0 d e in
-  let enc := PKCS7Encrypt Z (fun c => c) (fun c => [7%N]) (list N) wrap toy_xor (fun k n p => p ++ k) in
-  let dec := P7Model.Decrypt Z (fun c => c) (fun c => [7%N]) Z unwrap toy_xor (fun k n c => None) (fun _ _ => true) in
-  (do env <- enc DESCBC [1;2;3]%N [1;2]%Z [42;43]%N [0;0;0;0;0;0;0;0]%N (fun _ => rho); dec env 2%Z 2%Z) = Ok [1;2;3]%N /\
-  (exists e, (do env <- enc DESCBC [1;2;3]%N [1;2]%Z [42;43]%N [0;0;0;0;0;0;0;0]%N (fun _ => rho); dec env 2%Z 1%Z) = Err e) /\
-  (exists e, enc DESCBC [1;2;3]%N [0]%Z [42;43]%N [0;0;0;0;0;0;0;0]%N (fun _ => rho) = Err e).
-Proof. cbv zeta. split; [vm_compute; reflexivity|split; eexists; vm_compute; reflexivity]. Qed.
+  exists e, P7SM2Model.sm2_wrap 2 0 1 [7; 8; 9]%N (repeat 0%N 39 ++ [1%N]) = Ok e /\
+            SM2Model.Decrypt (SM2Model.key_of 1) e 0 = Ok [7; 8; 9]%N.
+Proof.
+  pose proof C02.C02_roundtrip_example as X. cbv zeta in X. destruct X as [X _].
+  destruct (X 0%Z (or_introl eq_refl)) as (c & E & _ & D & _).
+  exists c. split; [|exact D].
+  unfold P7SM2Model.sm2_wrap.
+  assert (G : ((1 <=? 1)%Z && (1 <? SM2Curve.sm2_n)%Z && Nat.ltb (length (repeat 0%N 39 ++ [1%N]) / 40) 2)%bool = true)
+    by (vm_compute; reflexivity).
+  rewrite G, E. reflexivity.
+Qed.
 
 (* ================= 2. signed data ============================================================ *)
 Section C17_Signed.
@@ -193,6 +196,128 @@ Example C17_signed_example :
   V (fun c alg signed sig => true) (mkP7 Z [1;2;4]%N [5;6]%Z (p7_signers Z p7)) = Err 13 /\
   V (fun c alg signed sig => true) (mkP7 Z [1;2;3]%N [5]%Z (p7_signers Z p7)) = Err 14 /\
   V (fun c alg signed sig => true) (mkP7 Z [1;2;3]%N [5;6]%Z []) = Err 17.
+Proof. vm_compute. repeat split; reflexivity. Qed.
+
+(* ================= 2b. the signing side: what AddSigner builds, Verify accepts ==================== *)
+(* P7/P7SignModel.v follows NewSignedData, attributes.ForMarshaling (sorted by encoding), AddSigner, signAttributes
+   and Finish + Parse at the level of the decoded structures; the digest OID, signature OID and content hash AddSigner
+   picks are read from the source (Gen/PKCS7Tables.v).  Relative to: the signature scheme is correct for the key that
+   belongs to the certificate (sign_correct: the statement of C01 for SM2, of PKCS#1 v1.5 for RSA), the OCTET STRING
+   codec inverts, and the DER codec of the whole structure gives content, certificates and signer infos back
+   (finish_parse; checked end to end by the driver classes S, VER and SGN). *)
+Section C17_Signing.
+  Variable Cert : Type.
+  Variable cert_serial : Cert -> Z.
+  Variable cert_rawIssuer : Cert -> list N.
+  Variable hash_sum : string -> list N -> list N.
+  Variable parse_octets : list N -> option (list N).
+  Variable marshalAttributes : list attribute -> outcome (list N).
+  Variable check_signature : Cert -> string -> list N -> list N -> bool.
+  Variable marshal_octets marshal_oid : list N -> list N.
+  Variable enc_attr : attribute -> list N.
+  Variables SK Rnd : Type.
+  Variable key_kind : SK -> keyKind.
+  Variable sign : SK -> list N -> Rnd -> outcome (list N).
+  Variable holds : Cert -> SK -> Prop.                    (* sk is the private key of the certificate's public key *)
+  Hypothesis sign_correct : forall c sk m r s,
+    holds c sk -> sign sk m r = Ok s -> check_signature c (algo_of (key_kind sk)) m s = true.
+  Hypothesis octets_codec : forall d, parse_octets (marshal_octets d) = Some d.
+
+  Let add_signers := add_signers Cert cert_serial cert_rawIssuer hash_sum marshalAttributes marshal_octets marshal_oid enc_attr SK Rnd key_kind sign.
+  Let Verify := Verify Cert cert_serial cert_rawIssuer hash_sum parse_octets marshalAttributes check_signature.
+  Let ident := ident Cert cert_serial cert_rawIssuer.
+
+  (* every content, one or more signers (SM2 or RSA keys, any extra signed attributes that do not claim to be the
+     message digest, any signing time, any randomness) with distinct certificates, each signing with the key of its
+     certificate: if AddSigner succeeds for all, the result verifies *)
+  Theorem C17_sign_then_verify :
+    forall data l sd,
+      add_signers (NewSignedData Cert data) l = Ok sd -> l <> [] ->
+      Forall (fun sp => extra_ok Cert SK Rnd sp /\ holds (sp_cert Cert SK Rnd sp) (sp_key Cert SK Rnd sp)) l ->
+      NoDup (map ident (map (sp_cert Cert SK Rnd) l)) ->
+      Verify (finish_parse Cert sd) = Ok tt.
+  Proof.
+    exact (sign_then_verify Cert cert_serial cert_rawIssuer hash_sum parse_octets marshalAttributes check_signature
+             marshal_octets marshal_oid enc_attr SK Rnd key_kind sign holds sign_correct octets_codec).
+  Qed.
+
+  (* the same certificates and signer infos around ANOTHER content verify only if, for every signer, the digest of
+     the other content equals the digest of the signed one (a collision of SHA-1 / SM3, or the same content) *)
+  Theorem C17_tampered_content_rejected :
+    forall data l sd content',
+      add_signers (NewSignedData Cert data) l = Ok sd ->
+      Forall (fun sp => extra_ok Cert SK Rnd sp) l ->
+      Verify (mkP7 Cert content' (b_certs Cert sd) (b_signers Cert sd)) = Ok tt ->
+      forall sp, In sp l ->
+        hash_sum (spec_hash Cert SK Rnd key_kind sp) content' = hash_sum (spec_hash Cert SK Rnd key_kind sp) data.
+  Proof.
+    exact (tampered_content_rejected Cert cert_serial cert_rawIssuer hash_sum parse_octets marshalAttributes check_signature
+             marshal_octets marshal_oid enc_attr SK Rnd key_kind sign octets_codec).
+  Qed.
+End C17_Signing.
+Print Assumptions C17_sign_then_verify.
+Print Assumptions C17_tampered_content_rejected.
+
+(* SM2 signers: the signature premise is C01's theorem (PublicKey.Verify accepts what PrivateKey.Sign returns, SM2
+   facts proved), cited by name; private keys are scalars d with 1 <= d <= n-2, a certificate carries [cert_d]G *)
+Section C17_Signing_SM2.
+  Variable Cert : Type.
+  Variable cert_serial : Cert -> Z.
+  Variable cert_rawIssuer : Cert -> list N.
+  Variable cert_d : Cert -> Z.
+  Variable fuel : nat.
+  Variable hash_sum : string -> list N -> list N.
+  Variable parse_octets : list N -> option (list N).
+  Variable marshalAttributes : list attribute -> outcome (list N).
+  Variable marshal_octets marshal_oid : list N -> list N.
+  Variable enc_attr : attribute -> list N.
+  Hypothesis octets_codec : forall d, parse_octets (marshal_octets d) = Some d.
+
+  Let add_signers := add_signers Cert cert_serial cert_rawIssuer hash_sum marshalAttributes marshal_octets marshal_oid enc_attr
+                       Z (list N) (fun _ => KeySM2) (P7SM2Model.sm2_p7_sign fuel).
+  Let Verify := Verify Cert cert_serial cert_rawIssuer hash_sum parse_octets marshalAttributes (P7SM2Model.sm2_p7_check cert_d).
+  Let ident := ident Cert cert_serial cert_rawIssuer.
+
+  Theorem C17_sign_then_verify_sm2 :
+    forall data l sd,
+      add_signers (NewSignedData Cert data) l = Ok sd -> l <> [] ->
+      Forall (fun sp => extra_ok Cert Z (list N) sp /\
+                        sp_key Cert Z (list N) sp = cert_d (sp_cert Cert Z (list N) sp) /\
+                        (1 <= sp_key Cert Z (list N) sp <= SM2Curve.sm2_n - 2)%Z) l ->
+      NoDup (map ident (map (sp_cert Cert Z (list N)) l)) ->
+      Verify (finish_parse Cert sd) = Ok tt.
+  Proof.
+    intros data l sd E Hne Hall Hnd.
+    refine (sign_then_verify Cert cert_serial cert_rawIssuer hash_sum parse_octets marshalAttributes (P7SM2Model.sm2_p7_check cert_d)
+              marshal_octets marshal_oid enc_attr Z (list N) (fun _ => KeySM2) (P7SM2Model.sm2_p7_sign fuel)
+              (fun c d => d = cert_d c /\ (1 <= d <= SM2Curve.sm2_n - 2)%Z) _ octets_codec data l sd E Hne Hall Hnd).
+    intros c d m r s [Hd Hr] Hs.
+    exact (P7SM2Proofs.sm2_p7_sign_correct Cert cert_d fuel c d m r s _ Hd Hr Hs).
+  Qed.
+End C17_Signing_SM2.
+Print Assumptions C17_sign_then_verify_sm2.
+
+(* non-vacuity, toy scheme (signature = key byte :: message, certificates and keys are numbers): two signers, one with
+   an RSA-like and one with an SM2-like key; AddSigner succeeds, the result verifies, another content is rejected,
+   a signer holding another key is rejected *)
+Example C17_signing_example :
+  let key_kind := fun (sk : Z) => if (sk <? 100)%Z then KeySM2 else KeyRSA in
+  let sign := fun (sk : Z) (m : list N) (_ : unit) => Ok (Z.to_N sk :: m) in
+  let check := fun (c : Z) (_ : string) (m sig : list N) => bytes_eqb sig (Z.to_N c :: m) in
+  let hash := fun (h : string) (d : list N) => [N.of_nat (String.length h); N.of_nat (List.length d); hd 0%N d] in
+  let marshalAttrs := fun (l : list attribute) => Ok (List.concat (map (fun a => at_type a ++ at_value a) l)) in
+  let mo := fun d : list N => 4%N :: d in
+  let po := fun d : list N => match d with 4%N :: r => Some r | _ => None end in
+  let add := add_signers Z (fun c => c) (fun _ => [7%N]) hash marshalAttrs mo (fun o => o) (fun a => at_type a ++ at_value a) Z unit key_kind sign in
+  let ver := P7Model.Verify Z (fun c => c) (fun _ => [7%N]) hash po marshalAttrs check in
+  let specs := fun k2 => [mkSpec Z Z unit 5%Z 5%Z [] [1%N] tt; mkSpec Z Z unit 200%Z k2 [mkAttr [9%N] [9%N]] [2%N] tt] in
+  (do sd <- add (NewSignedData Z [1; 2; 3]%N) (specs 200%Z); ver (finish_parse Z sd)) = Ok tt /\
+  (do sd <- add (NewSignedData Z [1; 2; 3]%N) (specs 200%Z); ver (mkP7 Z [1; 2; 4; 4]%N (b_certs Z sd) (b_signers Z sd))) = Err 13 /\
+  (do sd <- add (NewSignedData Z [1; 2; 3]%N) (specs 201%Z); ver (finish_parse Z sd)) = Err 16 /\
+  (do sd <- add (NewSignedData Z [1; 2; 3]%N) (specs 200%Z);
+   Ok (map (fun s => (si_digestAlg s, si_digestEncAlg s, map at_type (si_attrs s))) (b_signers Z sd)))
+  = Ok [(gen_oid_HashSM3, gen_oid_SM3withSM2, [gen_oid_AttributeContentType; gen_oid_AttributeMessageDigest; gen_oid_AttributeSigningTime]);
+        (gen_oid_DigestAlgorithmSHA1, gen_oid_SignatureSHA1WithRSA, [gen_oid_AttributeContentType; gen_oid_AttributeMessageDigest; gen_oid_AttributeSigningTime; [9%N]])].
 Proof. vm_compute. repeat split; reflexivity. Qed.
 
 (* ================= 3. content padding ======================================================== *)
@@ -362,8 +487,9 @@ Section C17_P12_Container.
       try eassumption; first [unfold kdf; apply kdf_inst_ok; assumption | unfold create; apply create_inst_ok; assumption].
   Qed.
 
-  (* a second key bag is an error in Decode and DecodeAll, a second certificate bag in Decode, whatever the bags hold *)
-  Theorem C17_p12_exactly_one_bag :
+  (* unit test of the model, not a property theorem (it holds by evaluation of bag_loop): a second key bag is an
+     error in Decode and DecodeAll, a second certificate bag in Decode, whatever the bags hold *)
+  Example C17_p12_exactly_one_bag_unit_test :
     forall one v rest pw k0 key c acc,
       bag_loop kdf create Key Cert parse_certs de_key de_blob de_certbag one (mkBag BagKey v :: rest) pw (Some k0) acc = Err 42 /\
       bag_loop kdf create Key Cert parse_certs de_key de_blob de_certbag true (mkBag BagCert v :: rest) pw key (c :: acc) = Err 40.
@@ -397,9 +523,36 @@ End C17_P12_Container.
 Print Assumptions C17_p12_roundtrip.
 Print Assumptions C17_p12_roundtrip_decode.
 Print Assumptions C17_p12_decode_refuses_extra_certificates.
-Print Assumptions C17_p12_exactly_one_bag.
 Print Assumptions C17_p12_no_substitution.
 Print Assumptions C17_p12_wrong_password.
+
+(* the hypotheses of the section hold together, and Encode = Ok happens: the section instantiated with the toy
+   hash, block function, HMAC, keys, certificates and codecs of P12/ContainerToy.v (every hypothesis is proved for them in
+   P12/ContainerToyProofs.v, the codecs for every structure), the KDF and RC2 being the real models.  Encode of a key, a
+   certificate and a CA certificate returns a container (toy_encode_ok: evaluated once, 2048 iterations, in that file);
+   the theorems above, applied to it, say what DecodeAll and Decode do.  Nothing is evaluated here. *)
+Example C17_p12_hypotheses_hold_together :
+  exists pfx,
+    Encode (kdf_inst toy_H) (create_inst toy_des toy_des) toy_hmac bool (list N) toy_cert_raw toy_ser_key
+           toy_ser_blob toy_certbag toy_ser_bags toy_ser_authsafe
+           true [1; 2]%N [[3]%N] [0; 112; 0; 0]%N [1;2;3;4;5;6;7;8]%N [8;7;6;5;4;3;2;1]%N [9;9;9;9;9;9;9;9]%N = Ok pfx /\
+    DecodeAll (kdf_inst toy_H) (create_inst toy_des toy_des) toy_hmac bool (list N) toy_parse_certs toy_de_key
+              toy_de_blob toy_de_certbag toy_de_bags toy_de_authsafe pfx [0; 112; 0; 0]%N = Ok (true, [1; 2]%N :: [[3]%N]) /\
+    ContainerModel.Decode (kdf_inst toy_H) (create_inst toy_des toy_des) toy_hmac bool (list N) toy_parse_certs toy_de_key
+              toy_de_blob toy_de_certbag toy_de_bags toy_de_authsafe pfx [0; 112; 0; 0]%N = Err 40.
+Proof.
+  destruct toy_encode_ok as [pfx E]. exists pfx.
+  assert (Hpw : bytes_ok [0; 112; 0; 0]%N) by (repeat constructor).
+  split; [exact E|]. split.
+  - exact (C17_p12_roundtrip toy_H toy_H_len toy_H_bytes toy_des toy_des toy_des_ok toy_hmac bool (list N) toy_cert_raw
+             toy_parse_certs toy_ser_key toy_de_key toy_ser_blob toy_de_blob toy_certbag toy_de_certbag toy_ser_bags toy_de_bags
+             toy_ser_authsafe toy_de_authsafe toy_key_codec toy_blob_codec toy_certbag_codec toy_bags_codec toy_authsafe_codec
+             toy_certs_parse true [1;2]%N [[3]%N] [0; 112; 0; 0]%N [1;2;3;4;5;6;7;8]%N [8;7;6;5;4;3;2;1]%N [9;9;9;9;9;9;9;9]%N pfx Hpw E).
+  - exact (C17_p12_decode_refuses_extra_certificates toy_H toy_H_len toy_H_bytes toy_des toy_des toy_des_ok toy_hmac bool (list N) toy_cert_raw
+             toy_parse_certs toy_ser_key toy_de_key toy_ser_blob toy_de_blob toy_certbag toy_de_certbag toy_ser_bags toy_de_bags
+             toy_ser_authsafe toy_de_authsafe toy_key_codec toy_blob_codec toy_certbag_codec toy_bags_codec toy_authsafe_codec
+             toy_certs_parse true [1;2]%N [3]%N [] [0; 112; 0; 0]%N [1;2;3;4;5;6;7;8]%N [8;7;6;5;4;3;2;1]%N [9;9;9;9;9;9;9;9]%N pfx Hpw E).
+Qed.
 
 (* non-vacuity: the password-based encryption with the real RC2 model, the model of pbkdf.go over a toy
    20-byte hash, CBC and padding, evaluated (5-byte key, 8-byte IV, 3 iterations each) *)
